@@ -870,7 +870,7 @@ func configRunFan(work string, o *configLiveObjs, idx int) int {
 //	targets: curve entries 0..nc-1, then fan entries nc..nc+nf-1
 func init() {
 	drivers["config_worker"] = func(ctx *Ctx) {
-		debug.SetMaxStack(16 << 20)
+		debug.SetMaxStack(4 << 20)
 		out := bufio.NewWriter(os.Stdout)
 		say := func(format string, a ...interface{}) {
 			fmt.Fprintf(out, format+"\n", a...)
@@ -1005,7 +1005,7 @@ func configRunAccepted(ctx *Ctx, path string, nc, nf int, obs *configObs) {
 		started := -1
 		done := false
 		for !done {
-			l, ok := w.next(15 * time.Second)
+			l, ok := w.next(8 * time.Second)
 			if !ok {
 				// died (exit / fatal error) or stalled: blame the started target
 				configTheWorker = nil
@@ -1568,12 +1568,12 @@ func configTagsFor(in configIn, obs configObs, gen string) []string {
 
 func init() {
 	drivers["config"] = func(ctx *Ctx) {
-		// every endless recursion costs several child processes; after 12 such cases the
+		// every endless recursion costs several child processes; after 8 such cases the
 		// verdict is settled (each is a failing input) and generation stops
 		hangs := 0
 		ncases := 0
 		emit := func(in configIn, gen string, extra ...string) {
-			if hangs >= 12 {
+			if hangs >= 8 {
 				return
 			}
 			// every 40th generated case and every corpus case also goes through the real CLI entry
